@@ -139,7 +139,8 @@ def build(c):
 
     B = Builder()
     k = c["k"]
-    sp = {"outer": None, "inner": None, "num_out": None, "in": {}, "out": {}, "extra": []}
+    sp = {"outer": None, "inner": None, "num_out": None, "in": {}, "out": {}, "extra": [], "feats": []}
+    ctx_feat = sp["feats"]
     V = lambda t: ["value", exp_t(t)]  # noqa: E731
 
     def dataflow(ins, outs):
@@ -150,6 +151,25 @@ def build(c):
 
     def poly(params, body):
         return ["func", wire.strip_reqs(wire.canon_poly(wire_poly(params, body)))]
+
+    def sum_obj(rows):
+        """the sum type object over these rows: the general Sum, or -- when the rows have the shape -- the sugar class
+        that denotes the same sum (every other time, decided by the descriptor so that a replay takes the same one)"""
+        if len(repr(rows)) % 2:
+            return tys.Sum([B.row(r) for r in rows])
+        if rows and all(not r for r in rows):
+            ctx_feat.append("feature:sugar-sum-type-object")
+            return tys.Bool if len(rows) == 2 and len(repr(c)) % 3 else tys.UnitSum(len(rows))
+        if len(rows) == 1:
+            ctx_feat.append("feature:sugar-sum-type-object")
+            return tys.Tuple(*B.row(rows[0]))
+        if len(rows) == 2 and not rows[0]:
+            ctx_feat.append("feature:sugar-sum-type-object")
+            return tys.Option(*B.row(rows[1]))
+        if len(rows) == 2:
+            ctx_feat.append("feature:sugar-sum-type-object")
+            return tys.Either(B.row(rows[0]), B.row(rows[1]))
+        return tys.Sum([B.row(r) for r in rows])
 
     if k == "Input":
         op = ops.Input(B.row(c["types"]))
@@ -165,7 +185,7 @@ def build(c):
         op = ops.CFG(B.row(c["ins"]), B.row(c["outs"]))
         dataflow(c["ins"], c["outs"])
     elif k == "DataflowBlock":
-        op = ops.DataflowBlock(B.row(c["ins"]), tys.Sum([B.row(r) for r in c["rows"]]), B.row(c["other"]))
+        op = ops.DataflowBlock(B.row(c["ins"]), sum_obj(c["rows"]), B.row(c["other"]))
         sp["inner"] = (exp_row(c["ins"]), exp_row([S(c["rows"]), *c["other"]]))
         sp["num_out"] = len(c["rows"])
         sp["in"][0] = ["cf"]
@@ -177,7 +197,7 @@ def build(c):
         sp["num_out"] = 0
         sp["in"][0] = ["cf"]
     elif k == "Conditional":
-        op = ops.Conditional(tys.Sum([B.row(r) for r in c["rows"]]), B.row(c["other"]), B.row(c["outs"]))
+        op = ops.Conditional(sum_obj(c["rows"]), B.row(c["other"]), B.row(c["outs"]))
         dataflow([S(c["rows"]), *c["other"]], c["outs"])
         for i, r_ in enumerate(c["rows"]):
             sp["extra"].append(("nth_inputs", i, exp_row([*r_, *c["other"]])))
@@ -191,7 +211,7 @@ def build(c):
         sp["inner"] = (exp_row([*c["just_in"], *c["rest"]]),
                        exp_row([S([c["just_in"], c["just_out"]]), *c["rest"]]))
     elif k == "Tag":
-        op = ops.Tag(c["tag"], tys.Sum([B.row(r) for r in c["rows"]]))
+        op = ops.Tag(c["tag"], sum_obj(c["rows"]))
         dataflow(c["rows"][c["tag"]], [S(c["rows"])])
     elif k == "TagSugar":
         s, a, b = c["sugar"], c["a"], c["b"]
@@ -276,6 +296,8 @@ def check_case(ctx, c, stratum="op"):
     from hugr import Hugr, InPort, Node, OutPort, ops
 
     op, sp = build(c)
+    for f_ in sp.get("feats", []):
+        ctx.feat(f_)
     k = c["k"]
     n0 = Node(0)
 
